@@ -1,9 +1,104 @@
 (* Properties_C07.v — property C07: try / catch / throw follow block structure.
-   Only statements closed by `exact`, each followed by Print Assumptions. *)
+   Only statements closed by `exact`, each followed by Print Assumptions.
+   mach = mrun exc_max_depth clear_active_on_catch: the machine (struct Exception + the C functions
+   of src/Exception.c + the expansion of the try/catch/throw macros) with both parameters re-read
+   from the working tree; ref_run = structured big-step semantics of the same program tree. *)
 From CelloV Require Import Generated Exn ExnProofs.
+From Coq Require Import List.
+Import ListNotations.
+
+(* For every program tree and every machine state whose depth leaves room for the tree's nesting:
+   same observations (statements executed, handlers entered with the bound object and message,
+   depth at each), depth and jump-buffer stack restored; normal end leaves [active] clear; a raise
+   leaves the thrown object/message in the record and goes to the innermost enclosing buffer, or
+   kills the program (Exception_Error) when there is none. *)
+Theorem exn_machine_refines_structured : forall p st,
+  depth st + nesting p <= exc_max_depth ->
+  let '(tr, r, st') := mach p st in
+  let '(tr0, r0) := ref_run (depth st) p in
+  tr = tr0 /\ depth st' = depth st /\ bufs st' = bufs st /\
+  match r0 with
+  | RNormal => r = MNormal /\ (active st = false -> active st' = false)
+  | RRaised k m =>
+      obj st' = Some k /\ msg st' = m /\
+      match bufs st with
+      | [] => r = MDied (Some k) m
+      | t :: _ => r = MJump t
+      end
+  end.
+Proof. exact ExnProofs.machine_refines_structured. Qed.
+Print Assumptions exn_machine_refines_structured.
+
+Example exn_machine_refines_structured_nonvacuous :
+  depth st_init + nesting (PTry (PSeq (PTry (PThrow 0 1) [1] (PTick 1)) (PTick 2)) [0] (PThrow 2 3)) <= exc_max_depth
+  /\ depth (MS None 0 [1; 0] true) + nesting (nest (exc_max_depth - 2) (PThrow 0 1)) <= exc_max_depth.
+Proof. split; apply PeanoNat.Nat.leb_le; vm_compute; reflexivity. Qed.
+
+(* A whole program on a thread's fresh record: it ends normally at depth 0 exactly when the
+   structured semantics does, and otherwise dies with failure status and the diagnostic for the
+   object/message the structured semantics leaves unhandled. *)
+Theorem exn_whole_program : forall p, nesting p <= exc_max_depth ->
+  let '(tr, r, st') := mach p st_init in
+  let '(tr0, r0) := ref_run 0 p in
+  tr = tr0 /\ depth st' = 0 /\
+  r = match r0 with RNormal => MNormal | RRaised k m => MDied (Some k) m end.
+Proof. exact ExnProofs.whole_program. Qed.
+Print Assumptions exn_whole_program.
+
+Example exn_whole_program_nonvacuous :
+  nesting (nest exc_max_depth (PThrow 0 1)) <= exc_max_depth
+  /\ snd (ref_run 0 (PTry (PThrow 0 1) [1] PSkip)) = RRaised 0 1.
+Proof. split; [apply PeanoNat.Nat.leb_le; vm_compute; reflexivity | reflexivity]. Qed.
+
+(* A handled exception never fires again in an enclosing block: a try whose body ends normally
+   (every exception raised in it was handled by a block inside it) never enters its handler. *)
+Theorem exn_handled_not_seen_outside : forall B fs h st,
+  depth st + S (nesting B) <= exc_max_depth ->
+  snd (ref_run (S (depth st)) B) = RNormal ->
+  let '(tr, r, st') := mach (PTry B fs h) st in
+  tr = fst (ref_run (S (depth st)) B) /\ r = MNormal /\ depth st' = depth st /\ active st' = false.
+Proof. exact ExnProofs.handled_not_seen_outside. Qed.
+Print Assumptions exn_handled_not_seen_outside.
+
+Example exn_handled_not_seen_outside_nonvacuous :
+  depth st_init + S (nesting (PTry (PThrow 0 5) [0] (PTick 1))) <= exc_max_depth
+  /\ snd (ref_run (S (depth st_init)) (PTry (PThrow 0 5) [0] (PTick 1))) = RNormal.
+Proof. split; [apply PeanoNat.Nat.leb_le; vm_compute; reflexivity | reflexivity]. Qed.
+
+(* The nesting bound of the theorems is the real one: one more try aborts. *)
+Theorem exn_overflow_aborts : forall b fs h st,
+  depth st = exc_max_depth -> mach (PTry b fs h) st = ([], MAbort, st).
+Proof. exact ExnProofs.overflow_aborts. Qed.
+Print Assumptions exn_overflow_aborts.
+
+(* D3: the pinned code (exception_catch never clears [active]) does not follow block structure. *)
+Theorem exn_unrepaired_refuted :
+  exists p, nesting p <= exc_max_depth /\
+    fst (fst (mrun exc_max_depth false p st_init)) <> fst (ref_run 0 p).
+Proof. exact ExnProofs.unrepaired_refuted. Qed.
+Print Assumptions exn_unrepaired_refuted.
+
+Theorem exn_unrepaired_refuted_dies :
+  exists p, nesting p <= exc_max_depth /\ snd (ref_run 0 p) = RNormal /\
+    snd (fst (mrun exc_max_depth false p st_init)) = MDied (Some 0) 5.
+Proof. exact ExnProofs.unrepaired_refuted_dies. Qed.
+Print Assumptions exn_unrepaired_refuted_dies.
+
+(* Ties to the source text (Generated.v is rewritten from the working tree on every check). *)
+Theorem exn_repair_in_source : clear_active_on_catch = true.
+Proof. exact ExnProofs.clear_active_generated. Qed.
+Print Assumptions exn_repair_in_source.
 
 Theorem exn_macro_shapes :
   exn_macro_try = expected_macro_try /\ exn_macro_catch = expected_macro_catch /\
   exn_macro_catch_in = expected_macro_catch_in /\ exn_macro_throw = expected_macro_throw.
 Proof. exact ExnProofs.macro_shapes. Qed.
 Print Assumptions exn_macro_shapes.
+
+Theorem exn_source_shapes :
+  exn_src_try = expected_src_try /\ exn_src_try_end = expected_src_try_end /\
+  exn_src_try_fail = expected_src_try_fail /\ exn_src_throw = expected_src_throw /\
+  exn_src_catch = expected_src_catch /\ exn_src_buffer = expected_src_buffer /\
+  exn_src_len = expected_src_len.
+Proof. exact ExnProofs.source_shapes. Qed.
+Print Assumptions exn_source_shapes.
